@@ -540,16 +540,20 @@ def decode (patch : Node) : Except Err (List RawOp) :=
       | _ => .error .patchInvalid
   else .error .patchInvalid
 
-/-- the pointer-parsing loop at the head of `_jbl_patch_node` -/
-def parseOps : List RawOp → Except Err (List POp)
-  | [] => .ok []
-  | o :: r => do
-    let path ← parsePtr (o.path.getD [])
-    let frm ← match o.frm with
-      | some f => (parsePtr f).map some
-      | none => pure none
-    let rest ← parseOps r
-    pure ({ op := o.op, path := path, frm := frm, value := o.value } :: rest)
+/-- pointer texts of one operation → segments (`_jbl_ptr_pool` on `path`, then on `from` when present) -/
+def parseOne (o : RawOp) : Except Err POp :=
+  match parsePtr (o.path.getD []) with
+  | .error e => .error e
+  | .ok path =>
+    match o.frm with
+    | none => .ok { op := o.op, path := path, frm := none, value := o.value }
+    | some f =>
+      match parsePtr f with
+      | .error e => .error e
+      | .ok fp => .ok { op := o.op, path := path, frm := some fp, value := o.value }
+
+/-- the pointer-parsing loop at the head of `_jbl_patch_node`: stops at the first bad pointer -/
+def parseOps (ops : List RawOp) : Except Err (List POp) := ops.mapM parseOne
 
 /-- `_jbl_patch_node` -/
 def patchNode (root : Node) (ops : List RawOp) : Node × Err :=
